@@ -1,75 +1,10 @@
 import PV.C20.Types
 /-
-  C20 — the domain on which the unchanged Rust splitter provably agrees with CPython.
-
-  `inDomain t` is a one-pass, decidable, purely lexical check of the template: it follows
-  CPython's reading of the template (literal text, field name, `[...]` inside the name,
-  conversion, format spec with nesting depth) and answers `false` as soon as it meets one of the
-  shapes on which the two scanners are *known to differ* (each is a listed finding, see
-  design/C20.md and the witnessed negations in Thm.lean):
-
-    H1  a brace or a `!` between `[` and the next `]` of a field name      `{a[}`  `{a[}]}`  `{a[!]}`
-    H2  a `{` in a field name (outside brackets)                            `{a{b}c}`
-    H3  the conversion character is `{`, `}`, `:` or `[`                    `{!}}`  `{!:}`  `{![:]}`
-    H4  a second level of braces inside a format spec                       `{:{{}}}`
-    H5  a `[` inside a format spec that is followed by more spec text
-        but by no `]` before the spec ends                                  `{:[<5}`
-
-  Everything else — in particular every template that CPython rejects for a single brace, a
-  missing `}`, a bad conversion — is inside the domain.
+  C20 — the domain on which the Rust field-name splitter provably agrees with CPython.
+  (The template splitter needs no domain any more: after /repo commit eebce66 `template_eq` holds for
+  every template.)
 -/
 namespace PV.C20
-
-/-- reading position of `inDomain`.  `spec nested br`: inside a format spec, `nested` = inside one
-    level of braces; `br = 0` not after a `[`, `1` directly after a `[`, `2` after a `[` and at
-    least one further character, no `]` yet. -/
-inductive DState where
-  | lit | name | nameBr | conv | convEnd
-  | spec (nested : Bool) (br : Nat)
-  deriving DecidableEq, Repr
-
-/-- bracket bookkeeping inside a format spec (H5). -/
-def brNext (br c : Nat) : Nat :=
-  if br = 0 then (if c = 91 then 1 else 0)
-  else if c = 93 then 0 else 2
-
-def domFrom : DState → List Nat → Bool
-  | _, [] => true
-  | .lit, [_] => true
-  | .lit, c :: d :: rest =>
-    if c = 123 then (if d = 123 then domFrom .lit rest else domFrom .name (d :: rest))
-    else if c = 125 then (if d = 125 then domFrom .lit rest else true)   -- single `}`: both reject
-    else domFrom .lit (d :: rest)
-  | .name, c :: rest =>
-    if c = 123 then false                                   -- H2
-    else if c = 91 then domFrom .nameBr rest
-    else if c = 125 then domFrom .lit rest
-    else if c = 58 then domFrom (.spec false 0) rest
-    else if c = 33 then domFrom .conv rest
-    else domFrom .name rest
-  | .nameBr, c :: rest =>
-    if c = 123 ∨ c = 125 ∨ c = 33 then false               -- H1
-    else if c = 93 then domFrom .name rest
-    else domFrom .nameBr rest
-  | .conv, c :: rest =>
-    if c = 123 ∨ c = 125 ∨ c = 58 ∨ c = 91 then false      -- H3
-    else domFrom .convEnd rest
-  | .convEnd, c :: rest =>
-    if c = 125 then domFrom .lit rest
-    else if c = 58 then domFrom (.spec false 0) rest
-    else true                                               -- both reject
-  | .spec nested br, c :: rest =>
-    if c = 123 then
-      if nested then false                                  -- H4
-      else domFrom (.spec true (brNext br c)) rest
-    else if c = 125 then
-      if nested then domFrom (.spec false (brNext br c)) rest
-      else if br = 2 then false                             -- H5
-      else domFrom .lit rest
-    else domFrom (.spec nested (brNext br c)) rest
-
-/-- the template-level domain predicate of `template_eq_partial`. -/
-def inDomain (t : List Nat) : Bool := domFrom .lit t
 
 /-! ### field names
 
